@@ -173,6 +173,21 @@ KERNELS = [
     dict(name='magnetMultiParams', kind='strings', file='torf/_magnet.py', func='Magnet.from_string', pick=('for-tuple', 1)),
     dict(name='magnetRenderSingle', kind='strings', file='torf/_magnet.py', func='Magnet.__str__', pick=('for-tuple', 0)),
     dict(name='magnetRenderMulti', kind='strings', file='torf/_magnet.py', func='Magnet.__str__', pick=('for-tuple', 1)),
+    # --- loop kernels (C11): whole functions of TorrentFileStream, translated statement by statement into structural
+    #     recursions over the list of file sizes (see `translate_loop`); a File is its index in Torrent.files
+    dict(name='fileAtPositionFn', kind='loop', file='torf/_stream.py', func='TorrentFileStream.get_file_at_position',
+         params=[('position', 'Int')], ignore=('content_path',), ret='File'),
+    dict(name='filesAtByteRangeFn', kind='loop', file='torf/_stream.py', func='TorrentFileStream.get_files_at_byte_range',
+         params=[('first_byte_index', 'Int'), ('last_byte_index', 'Int')], ignore=('content_path',), ret='Files'),
+    dict(name='filePositionFn', kind='loop', file='torf/_stream.py', func='TorrentFileStream.get_file_position',
+         params=[('file', 'File')], ret='Int'),
+    dict(name='filesAtPieceIndexFn', kind='loop', file='torf/_stream.py', func='TorrentFileStream.get_files_at_piece_index',
+         params=[('piece_index', 'Int'), ('piece_size', 'Int')], ignore=('content_path',),
+         atoms={'self._torrent.piece_size': 'piece_size'}, calls={'self.get_files_at_byte_range': 'filesAtByteRangeFn'},
+         ret='Files'),
+    dict(name='byteRangeOfFileFn', kind='loop', file='torf/_stream.py', func='TorrentFileStream.get_byte_range_of_file',
+         params=[('file', 'File'), ('file_size', 'Int')], atoms={'file.size': 'file_size'},
+         calls={'self.get_file_position': 'filePositionFn'}, ret='IntPair'),
 ]
 
 
@@ -559,11 +574,420 @@ def translate_strings(repo, k):
     return f'def {k["name"]} : List String :=\n  [' + ', '.join(out) + ']'
 
 
+# =====================================================================================================================
+# kernel kind `loop`: whole functions with (at most) one `for <file> in self._torrent.files:` loop
+#
+# The function body is translated *statement by statement* (continuation style: what follows a statement is translated
+# inside each branch that reaches it) into Lean:
+#
+#     x = <int expr> / x += … / x = <bool expr>     let x : Int := …            (arithmetic / comparisons: class `Tr`)
+#     xs = []  /  xs.append(<file>)                  let xs : List Nat := [] / xs ++ [<index of the file>]
+#     x = <file>  (the loop variable, or self._get_content_path(…, file=<file>))      let x : Nat := <index of the file>
+#     if c: A else: B                                if c then ⟦A; rest⟧ else ⟦B; rest⟧
+#     assert c                                       if c then ⟦rest⟧ else .raised "AssertionError"
+#     return <file> / <list> / <int> / <int>, <int>  .ret …                      (the rest is dropped: a `return` inside
+#                                                                                  the loop ends the loop)
+#     raise Exc(…)                                   .raised "Exc"
+#     x = self.other(…)   (other: a loop kernel)     Out.bind (otherFn sizes …) fun x => ⟦rest⟧
+#     try: i = self._torrent.files.index(f)          if f < sizes.length then let i : Int := f; ⟦else-block; rest⟧
+#     except ValueError: H  else: E                  else ⟦H; rest⟧           (a File is its index; ≥ length: not listed)
+#     sum(f.size for f in self._torrent.files[:k])   List.sum (sliceTo sizes k)
+#     for file in self._torrent.files: BODY          <name>.loop <unchanged locals> sizes 0 <locals assigned in BODY>
+#
+# and the loop itself becomes `def <name>.loop <unchanged locals> : List Int → Nat → <assigned locals…> → Out _` with
+#     | [], _, locals…               => ⟦statements after the loop⟧
+#     | file_size :: file_rest, file, locals… => ⟦BODY; <name>.loop … file_rest (file + 1) locals…⟧
+# (`file` is the index of the current file, `file.size` is `file_size`; `continue` is the recursive call, `break` the
+# statements after the loop).  Only `file.size` and the identity of `file` may be read from the loop variable.  Names
+# assigned inside BODY but not before the loop are local to one iteration (reading one that is not assigned on the
+# current path is refused).  Everything else — other statements, calls, attribute reads, nested loops, `for … else`,
+# tuple targets, aliasing of lists — raises CannotTranslate and the committed snapshot of the kernel is kept.
+# =====================================================================================================================
+
+_LOOP_LEAN_TYPES = {'Int': 'Int', 'Bool': 'Bool', 'File': 'Nat', 'Files': 'List Nat', 'IntPair': 'Int × Int'}
+_LOOP_RESERVED = set('''
+    sizes min max decide some none true false Int Nat List Bool String Option Prod fun let if then else match with do
+    at from end open def theorem by have show in where instance structure inductive class namespace section import
+    universe variable set_option mutual private protected partial unsafe macro syntax notation infix infixl infixr prefix
+    postfix deriving extends for unless return try catch finally mut using calc then abbrev example axiom opaque
+    noncomputable nomatch nofun this Type Prop Sort forall exists termination_by decreasing_by attribute export local
+    omit include'''.split())
+
+
+def _loop_ident(name):
+    if not re.fullmatch(r'[a-z_][a-z0-9_]*', name) or name in _LOOP_RESERVED or name == '_' or '.' in name:
+        raise CannotTranslate(f'name {name!r} cannot be used as a Lean identifier here')
+    return name
+
+
+class _LoopExpr(Tr):
+    """expressions of a loop kernel: the arithmetic / comparisons of `Tr`, sums over file sizes, truth of a list"""
+
+    def __init__(self, env, atoms, files_src):
+        super().__init__([(n, t) for n, t in env.items()], atoms)
+        self.files_src = files_src
+
+    def int_(self, n):
+        if isinstance(n, ast.Call) and ast.unparse(n.func) == 'sum':
+            if len(n.args) == 1 and not n.keywords and isinstance(n.args[0], ast.GeneratorExp):
+                g = n.args[0]
+                c = g.generators[0]
+                if (len(g.generators) == 1 and not c.ifs and not c.is_async and isinstance(c.target, ast.Name)
+                        and isinstance(g.elt, ast.Attribute) and isinstance(g.elt.value, ast.Name)
+                        and g.elt.value.id == c.target.id and g.elt.attr == 'size'):
+                    it = c.iter
+                    if ast.unparse(it) == self.files_src:
+                        return '(List.sum sizes)'
+                    if (isinstance(it, ast.Subscript) and ast.unparse(it.value) == self.files_src
+                            and isinstance(it.slice, ast.Slice) and it.slice.lower is None and it.slice.step is None
+                            and it.slice.upper is not None):
+                        return f'(List.sum (Torf.Loop.sliceTo sizes {self.int_(it.slice.upper)}))'
+            raise CannotTranslate(f'sum expression {ast.unparse(n)}')
+        if (isinstance(n, ast.Call) and ast.unparse(n.func) == 'len' and len(n.args) == 1 and not n.keywords
+                and isinstance(n.args[0], ast.Name) and self.types.get(n.args[0].id) == 'Files'):
+            return f'((List.length {n.args[0].id} : Nat) : Int)'
+        return super().int_(n)
+
+    def bool_(self, n):
+        if isinstance(n, ast.Name) and self.types.get(n.id) == 'Files' and self.atom(n) is None:
+            return f'(!(List.isEmpty {n.id}))'
+        return super().bool_(n)
+
+
+def _loop_kernel_by_name(name):
+    for k in KERNELS:
+        if k['name'] == name and k.get('kind') == 'loop':
+            return k
+    raise CannotTranslate(f'callee kernel {name} is not a loop kernel')
+
+
+def _signature_args(fn):
+    a = fn.args
+    if a.vararg or a.kwarg or a.kwonlyargs or a.posonlyargs:
+        raise CannotTranslate('signature with * / ** / keyword-only / positional-only arguments')
+    names = [x.arg for x in a.args]
+    if names[:1] != ['self']:
+        raise CannotTranslate('not a method')
+    return names[1:]
+
+
+class _LoopFn:
+    def __init__(self, k, tree):
+        self.k = k
+        self.tree = tree
+        self.name = k['name']
+        self.ret = k['ret']
+        self.atoms = dict(k.get('atoms') or {})
+        self.files_src = k.get('files', 'self._torrent.files')
+        self.wrappers = tuple(k.get('wrappers', ('self._get_content_path',)))
+        self.calls = dict(k.get('calls') or {})
+        self.aux = []
+        self.loops = 0
+        self.fn = _find_func(tree, k['func'])
+        self.all_names = {n.id for n in ast.walk(self.fn) if isinstance(n, ast.Name)} | \
+                         {a.arg for a in ast.walk(self.fn) if isinstance(a, ast.arg)}
+
+    # ---- expressions -------------------------------------------------------------------------------------------
+    def ex(self, env, loop):
+        atoms = dict(self.atoms)
+        env = dict(env)
+        if loop is not None:
+            atoms[f'{loop["var"]}.size'] = loop['size']
+            env[loop['size']] = 'Int'
+        return _LoopExpr(env, atoms, self.files_src)
+
+    def fileref(self, n, env):
+        """Lean term (an index) if `n` denotes a File of the torrent, else None"""
+        if isinstance(n, ast.Name) and env.get(n.id) == 'File':
+            return n.id
+        if isinstance(n, ast.Call) and ast.unparse(n.func) in self.wrappers:
+            kw = [q for q in n.keywords if q.arg == 'file']
+            if len(kw) == 1 and isinstance(kw[0].value, ast.Name) and env.get(kw[0].value.id) == 'File':
+                for a in list(n.args) + [q.value for q in n.keywords if q.arg != 'file']:
+                    if not isinstance(a, (ast.Name, ast.Constant)):
+                        raise CannotTranslate(f'argument of {ast.unparse(n.func)}: {ast.unparse(a)}')
+                return kw[0].value.id
+        return None
+
+    def call(self, n, env, loop):
+        """(Lean term of type Out _, result type) for a call of another loop kernel"""
+        callee = _loop_kernel_by_name(self.calls[ast.unparse(n.func)])
+        sig = _signature_args(_find_func(self.tree, callee['func']))
+        declared = dict(callee['params'])
+        given = {}
+        for i, a in enumerate(n.args):
+            if isinstance(a, ast.Starred) or i >= len(sig):
+                raise CannotTranslate(f'arguments of {ast.unparse(n.func)}')
+            given[sig[i]] = a
+        for q in n.keywords:
+            if q.arg is None or q.arg in given or q.arg not in sig:
+                raise CannotTranslate(f'keyword arguments of {ast.unparse(n.func)}')
+            given[q.arg] = q.value
+        out = []
+        for p, t in callee['params']:
+            if p in sig:
+                if p not in given:
+                    raise CannotTranslate(f'{ast.unparse(n.func)}: argument {p} left to its default')
+                a = given[p]
+                if t == 'Int':
+                    out.append(self.ex(env, loop).int_(a))
+                elif t == 'Bool':
+                    out.append(self.ex(env, loop).bool_(a))
+                elif t == 'File':
+                    r = self.fileref(a, env)
+                    if r is None:
+                        raise CannotTranslate(f'{ast.unparse(a)} is not a file')
+                    out.append(r)
+                else:
+                    raise CannotTranslate(f'argument type {t}')
+            else:                       # a parameter that stands for an attribute of the object (atoms): same name here
+                if env.get(p) != t:
+                    raise CannotTranslate(f'{callee["name"]} needs {p} : {t}')
+                out.append(p)
+        for p, a in given.items():
+            if p not in declared:
+                if p not in callee.get('ignore', ()) or not isinstance(a, (ast.Name, ast.Constant)):
+                    raise CannotTranslate(f'{ast.unparse(n.func)}: argument {p}')
+        return '(' + ' '.join([callee['name'], 'sizes'] + out) + ')', callee['ret']
+
+    # ---- statements --------------------------------------------------------------------------------------------
+    @staticmethod
+    def ind(lines, n=1):
+        return ['  ' * n + l for l in lines]
+
+    def bind(self, env, name, typ):
+        _loop_ident(name)
+        if env.get(name, typ) != typ:
+            raise CannotTranslate(f'{name} changes its type ({env[name]} → {typ})')
+        if name in self.k.get('ignore', ()):
+            raise CannotTranslate(f'assignment to the opaque argument {name}')
+        env = dict(env)
+        env[name] = typ
+        return env
+
+    def ret_term(self, v, env, loop):
+        if v is None:
+            raise CannotTranslate('return without a value')
+        if isinstance(v, ast.Call) and ast.unparse(v.func) in self.calls:
+            term, typ = self.call(v, env, loop)
+            if typ != self.ret:
+                raise CannotTranslate(f'returns {typ}, declared {self.ret}')
+            return term
+        if self.ret == 'File':
+            r = self.fileref(v, env)
+            if r is None:
+                raise CannotTranslate(f'return value {ast.unparse(v)} is not a file')
+            return f'.ret {r}'
+        if self.ret == 'Files':
+            if isinstance(v, ast.Name) and env.get(v.id) == 'Files':
+                return f'.ret {v.id}'
+            if isinstance(v, ast.List) and not v.elts:
+                return '.ret []'
+            raise CannotTranslate(f'return value {ast.unparse(v)} is not a list of files')
+        if self.ret == 'Int':
+            return f'.ret {self.ex(env, loop).int_(v)}'
+        if self.ret == 'Bool':
+            return f'.ret {self.ex(env, loop).bool_(v)}'
+        if self.ret == 'IntPair':
+            if isinstance(v, ast.Tuple) and len(v.elts) == 2:
+                e = self.ex(env, loop)
+                return f'.ret ({e.int_(v.elts[0])}, {e.int_(v.elts[1])})'
+            raise CannotTranslate(f'return value {ast.unparse(v)} is not a pair')
+        raise CannotTranslate(f'return type {self.ret}')
+
+    def block(self, stmts, env, k, loop):
+        """lines of a Lean term for `stmts` followed by the continuation `k(env)`"""
+        if not stmts:
+            return k(env)
+        s, rest = stmts[0], stmts[1:]
+
+        def cont(e):
+            return self.block(rest, e, k, loop)
+
+        if isinstance(s, ast.Pass) or (isinstance(s, ast.Expr) and isinstance(s.value, ast.Constant)):
+            return cont(env)
+        if isinstance(s, ast.AugAssign):
+            if not isinstance(s.target, ast.Name):
+                raise CannotTranslate(f'target {ast.unparse(s.target)}')
+            s = ast.Assign(targets=[s.target], value=ast.BinOp(left=ast.Name(id=s.target.id, ctx=ast.Load()), op=s.op,
+                                                                right=s.value))
+        if isinstance(s, ast.Assign):
+            if len(s.targets) != 1 or not isinstance(s.targets[0], ast.Name):
+                raise CannotTranslate(f'assignment target {ast.unparse(s.targets[0])}')
+            x, v = s.targets[0].id, s.value
+            if isinstance(v, ast.Call) and ast.unparse(v.func) in self.calls:
+                term, typ = self.call(v, env, loop)
+                if typ not in ('Int', 'Bool', 'File', 'Files'):
+                    raise CannotTranslate(f'result of type {typ} stored in a variable')
+                e2 = self.bind(env, x, typ)
+                return [f'Torf.Loop.Out.bind {term} (fun ({x} : {_LOOP_LEAN_TYPES[typ]}) =>'] + \
+                    self.ind(self._close(cont(e2)))
+            if isinstance(v, ast.List) and not v.elts:
+                typ, term = 'Files', '[]'
+            elif self.fileref(v, env) is not None:
+                typ, term = 'File', self.fileref(v, env)
+            elif (isinstance(v, (ast.Compare, ast.BoolOp)) or (isinstance(v, ast.UnaryOp) and isinstance(v.op, ast.Not))
+                  or (isinstance(v, ast.Constant) and isinstance(v.value, bool))
+                  or (isinstance(v, ast.Name) and env.get(v.id) == 'Bool')):
+                typ, term = 'Bool', self.ex(env, loop).bool_(v)
+            else:
+                typ, term = 'Int', self.ex(env, loop).int_(v)
+            e2 = self.bind(env, x, typ)
+            return [f'let {x} : {_LOOP_LEAN_TYPES[typ]} := {term}'] + cont(e2)
+        if isinstance(s, ast.Expr) and isinstance(s.value, ast.Call):
+            c = s.value
+            if (isinstance(c.func, ast.Attribute) and c.func.attr == 'append' and isinstance(c.func.value, ast.Name)
+                    and env.get(c.func.value.id) == 'Files' and len(c.args) == 1 and not c.keywords):
+                r = self.fileref(c.args[0], env)
+                if r is None:
+                    raise CannotTranslate(f'appended value {ast.unparse(c.args[0])} is not a file')
+                x = c.func.value.id
+                return [f'let {x} : List Nat := {x} ++ [{r}]'] + cont(env)
+            raise CannotTranslate(f'call statement {ast.unparse(c)[:60]}')
+        if isinstance(s, ast.If):
+            test = self.ex(env, loop).bool_(s.test)
+            return [f'if {test} then'] + self.ind(self.block(s.body, env, cont, loop)) + ['else'] + \
+                self.ind(self.block(s.orelse, env, cont, loop))
+        if isinstance(s, ast.Assert):
+            test = self.ex(env, loop).bool_(s.test)
+            return [f'if {test} then'] + self.ind(cont(env)) + ['else', '  .raised "AssertionError"']
+        if isinstance(s, ast.Return):
+            return [self.ret_term(s.value, env, loop)]
+        if isinstance(s, ast.Raise):
+            e = s.exc.func if isinstance(s.exc, ast.Call) else s.exc
+            if isinstance(e, ast.Attribute):
+                e = ast.Name(id=e.attr)
+            if not isinstance(e, ast.Name) or not re.fullmatch(r'[A-Z]\w*', e.id):
+                raise CannotTranslate(f'raise {ast.unparse(s.exc) if s.exc else ""}')
+            return [f'.raised "{e.id}"']
+        if isinstance(s, ast.Continue) and loop is not None:
+            return loop['rec'](env)
+        if isinstance(s, ast.Break) and loop is not None:
+            return loop['after'](env)
+        if isinstance(s, ast.Try):
+            return self.try_index(s, env, cont, loop)
+        if isinstance(s, ast.For):
+            return self.for_(s, env, cont, loop)
+        raise CannotTranslate(f'statement {type(s).__name__}: {ast.unparse(s)[:60]}')
+
+    @staticmethod
+    def _close(lines):
+        return lines[:-1] + [lines[-1] + ')']
+
+    def try_index(self, s, env, cont, loop):
+        """try: i = <files>.index(f) / except ValueError: H / else: E"""
+        ok = (len(s.body) == 1 and len(s.handlers) == 1 and not s.finalbody and isinstance(s.body[0], ast.Assign)
+              and len(s.body[0].targets) == 1 and isinstance(s.body[0].targets[0], ast.Name))
+        if ok:
+            h, v = s.handlers[0], s.body[0].value
+            ok = (isinstance(h.type, ast.Name) and h.type.id == 'ValueError' and isinstance(v, ast.Call)
+                  and ast.unparse(v.func) == self.files_src + '.index' and len(v.args) == 1 and not v.keywords
+                  and isinstance(v.args[0], ast.Name) and env.get(v.args[0].id) == 'File')
+        if not ok:
+            raise CannotTranslate('try statement other than `try: i = files.index(file) except ValueError: …`')
+        f, x = v.args[0].id, s.body[0].targets[0].id
+        e2 = self.bind(env, x, 'Int')
+        return [f'if {f} < List.length sizes then', f'  let {x} : Int := (({f} : Nat) : Int)'] + \
+            self.ind(self.block(s.orelse, e2, cont, loop)) + ['else'] + self.ind(self.block(h.body, env, cont, loop))
+
+    @staticmethod
+    def _assigned(stmts):
+        out = set()
+        for st in stmts:
+            for n in ast.walk(st):
+                if isinstance(n, (ast.Assign, ast.AugAssign, ast.AnnAssign, ast.NamedExpr, ast.For, ast.With, ast.Delete,
+                                  ast.Import, ast.ImportFrom, ast.Global, ast.Nonlocal, ast.comprehension)):
+                    tg = (n.targets if isinstance(n, (ast.Assign, ast.Delete)) else
+                          [n.target] if hasattr(n, 'target') else [])
+                    for t in tg:
+                        out |= {m.id for m in ast.walk(t) if isinstance(m, ast.Name)}
+                if (isinstance(n, ast.Call) and isinstance(n.func, ast.Attribute) and isinstance(n.func.value, ast.Name)):
+                    out.add(n.func.value.id)       # a method call may change its receiver (xs.append)
+        return out
+
+    def for_(self, s, env, cont, loop):
+        if loop is not None or self.loops:
+            raise CannotTranslate('more than one loop')
+        self.loops += 1
+        if s.orelse or not isinstance(s.target, ast.Name) or ast.unparse(s.iter) != self.files_src:
+            raise CannotTranslate(f'loop header: for {ast.unparse(s.target)} in {ast.unparse(s.iter)}')
+        var = _loop_ident(s.target.id)
+        size, restn = f'{var}_size', f'{var}_rest'
+        if var in env or {size, restn} & (self.all_names | set(env)):
+            raise CannotTranslate(f'name clash around the loop variable {var}')
+        assigned = self._assigned(s.body)
+        if var in assigned or assigned & set(self.k.get('ignore', ())):
+            raise CannotTranslate('loop variable or opaque argument is assigned in the loop')
+        names = [n for n, t in env.items() if t != 'Opaque']
+        fixed = [n for n in names if n not in assigned]
+        carried = [n for n in names if n in assigned]
+        gname = f'{self.name}.loop'
+        lt = _LOOP_LEAN_TYPES
+        sig = ' '.join(f'({n} : {lt[env[n]]})' for n in fixed)
+        typ = ' → '.join(['List Int', 'Nat'] + [lt[env[n]] for n in carried] + [f'Torf.Loop.Out ({lt[self.ret]})'])
+        pre = dict(env)
+
+        def after(e):
+            return cont({n: e[n] for n in pre})
+
+        def rec(e):
+            if any(e.get(n) != pre[n] for n in pre):
+                raise CannotTranslate('a variable changes its type in the loop')
+            return [' '.join([gname] + fixed + [restn, f'({var} + 1)'] + carried)]
+
+        body_env = dict(env)
+        body_env[var] = 'File'
+        lp = dict(var=var, size=size, rec=rec, after=after)
+        body = self.block(s.body, body_env, rec, lp)
+        lines = ['set_option linter.unusedVariables false in',
+                 f'def {gname}{" " if sig else ""}{sig} : {typ}',
+                 '  | ' + ', '.join(['[]', '_'] + carried) + ' =>'] + self.ind(after(pre), 2) + \
+                ['  | ' + ', '.join([f'{size} :: {restn}', var] + carried) + ' =>'] + self.ind(body, 2)
+        self.aux.append('\n'.join(lines))
+        return [' '.join([gname] + fixed + ['sizes', '0'] + carried)]
+
+    def translate(self):
+        sig = _signature_args(self.fn)
+        declared = [p for p, _ in self.k['params']]
+        env = {}
+        for p, t in self.k['params']:
+            if t not in ('Int', 'Bool', 'File'):
+                raise CannotTranslate(f'parameter type {t}')
+            env[_loop_ident(p)] = t
+        for a in sig:
+            if a not in declared:
+                if a not in self.k.get('ignore', ()):
+                    raise CannotTranslate(f'argument {a} of the function is not declared')
+                env[a] = 'Opaque'
+        for p in declared:
+            if p not in sig and p not in (self.atoms or {}).values():
+                raise CannotTranslate(f'declared parameter {p} is neither an argument nor an atom')
+
+        def falls_through(e):
+            raise CannotTranslate('function body can fall through (implicit `return None`)')
+
+        body = self.block(list(self.fn.body), env, falls_through, None)
+        psig = ' '.join(['(sizes : List Int)'] + [f'({p} : {_LOOP_LEAN_TYPES[t]})' for p, t in self.k['params']])
+        main = '\n'.join(['set_option linter.unusedVariables false in',
+                          f'def {self.name} {psig} : Torf.Loop.Out ({_LOOP_LEAN_TYPES[self.ret]}) :='] + self.ind(body))
+        return '\n'.join(self.aux + [main])
+
+
+def translate_loop(repo, k):
+    tree = ast.parse(open(os.path.join(repo, k['file'])).read())
+    try:
+        return _LoopFn(k, tree).translate()
+    except (AttributeError, IndexError, KeyError, TypeError) as e:      # an AST shape nobody thought of: not an alarm
+        raise CannotTranslate(f'loop translator: {e!r}')
+
+
 def translate_kernel(repo, k):
     if k.get('kind') == 'regex':
         return translate_regex(repo, k)
     if k.get('kind') == 'strings':
         return translate_strings(repo, k)
+    if k.get('kind') == 'loop':
+        return translate_loop(repo, k)
     src = open(os.path.join(repo, k['file'])).read()
     tree = ast.parse(src)
     fn = _find_func(tree, k['func'])
@@ -584,6 +1008,7 @@ HEADER = '''/-
   kernel it can no longer locate.
 -/
 import Torf.Base.Rx
+import Torf.Base.Loop
 namespace Torf.Generated
 
 '''
